@@ -2511,6 +2511,17 @@ fn convert_value_to_type2<'a>(
         let text = inner.as_str();
         // Remove quotes
         let text_content = &text[1..text.len() - 1];
+        // An escape that does not denote a Unicode scalar value (a lone
+        // surrogate, a value above 10FFFF) is an error, not a character to drop
+        if !text_escapes_are_scalar_values(text_content) {
+          return Err(Error::PARSER {
+            position: pest_span_to_position(&inner.as_span(), input),
+            msg: ErrorMsg {
+              short: "Invalid Unicode escape in text string".to_string(),
+              extended: None,
+            },
+          });
+        }
         // Handle escape sequences
         let unescaped = unescape_text(text_content);
         return Ok(ast::Type2::TextValue {
@@ -2548,6 +2559,14 @@ fn convert_value_to_type2<'a>(
         let text = inner.as_str();
         // Remove quotes
         let text_content = &text[1..text.len() - 1];
+        if !text_escapes_are_scalar_values(text_content) {
+          return Err(Error::PARSER {
+            msg: ErrorMsg {
+              short: "Invalid Unicode escape in text string".to_string(),
+              extended: None,
+            },
+          });
+        }
         // Handle escape sequences
         let unescaped = unescape_text(text_content);
         return Ok(ast::Type2::TextValue {
@@ -2567,6 +2586,54 @@ fn convert_value_to_type2<'a>(
       extended: None,
     },
   })
+}
+
+/// Does every `\u` escape of the text denote a Unicode scalar value? `\uXXXX`
+/// must not be a lone surrogate (a high surrogate has to be followed by a
+/// `\uXXXX` low surrogate), and `\u{hex}` must be a scalar value up to 10FFFF.
+fn text_escapes_are_scalar_values(text: &str) -> bool {
+  let mut chars = text.chars().peekable();
+  while let Some(ch) = chars.next() {
+    if ch != '\\' {
+      continue;
+    }
+    if chars.next() != Some('u') {
+      continue;
+    }
+    if chars.peek() == Some(&'{') {
+      chars.next();
+      let hex: String = chars.by_ref().take_while(|c| *c != '}').collect();
+      let significant = hex.trim_start_matches('0');
+      if significant.len() > 6 {
+        return false;
+      }
+      match u32::from_str_radix(&hex, 16) {
+        Ok(code_point) if char::from_u32(code_point).is_some() => (),
+        _ => return false,
+      }
+    } else {
+      let hex: String = chars.by_ref().take(4).collect();
+      let code_point = match u32::from_str_radix(&hex, 16) {
+        Ok(code_point) => code_point,
+        Err(_) => return false,
+      };
+      if (0xDC00..=0xDFFF).contains(&code_point) {
+        return false;
+      }
+      if (0xD800..=0xDBFF).contains(&code_point) {
+        if chars.next() != Some('\\') || chars.next() != Some('u') {
+          return false;
+        }
+        let low_hex: String = chars.by_ref().take(4).collect();
+        match u32::from_str_radix(&low_hex, 16) {
+          Ok(low) if (0xDC00..=0xDFFF).contains(&low) => (),
+          _ => return false,
+        }
+      }
+    }
+  }
+
+  true
 }
 
 /// Unescape text value (supports RFC 9682 \u{hex} escapes and surrogate pairs)
